@@ -24,7 +24,7 @@ def describe(tier):
     return {
         "rule": "G: all (n,k) with n in 0..40, k in 1..8, both directions, IPv4/IPv6; S: all sequences of (direction, n, k) records "
                 f"to depth {2 if tier == 'quick' else 3} over n in {NS} x k in {KS}; P: product of option sets (-m absent/bare/"
-                "pairs, -a, -c, -p, -g) x 9 capture kinds. non-trivial: an output holding >= 1 TCP conversation or UDP datagram that "
+                "pairs, -a, -c, -p, -g) x 12 capture kinds (incl. reordered and retransmitted TLS segments). non-trivial: an output holding >= 1 TCP conversation or UDP datagram that "
                 "passed every structural test; distinct = distinct scenario",
         "exhaustive": True,
         "bounds": {"grid": "n 0..40 x k 1..8", "sequence_depth": 2 if tier == "quick" else 3},
@@ -49,7 +49,7 @@ def cases(tier, seed):
             if v6 and tier == "quick" and i % 3:
                 continue
             yield {"layer": "S", "first": i, "depth": depth, "v6": v6}
-    for ci in range(9):
+    for ci in range(len(P_CAPTURES)):
         yield {"layer": "P", "capture": ci, "seed": seed}
 
 
@@ -122,7 +122,8 @@ def check_builder(specs, v6):
     return None
 
 
-P_CAPTURES = ["tls_ok", "quic_ok", "tls_nokeys", "quic_nokeys", "quic_unknown_version", "http_on_443", "junk_udp", "empty", "mixed"]
+P_CAPTURES = ["tls_ok", "quic_ok", "tls_nokeys", "quic_nokeys", "quic_unknown_version", "http_on_443", "junk_udp", "empty", "mixed",
+              "tls_reordered", "tls_retransmitted", "tls_many_segments_two_flows"]
 P_OPTS = {"m": [None, [], ["443:8081"], ["443:8081", "8443:9000"]], "a": [False, True], "c": [False, True], "p": [None, ["8443"]],
           "g": [False, True]}
 
@@ -168,7 +169,40 @@ def program_capture(kind, seed):
         e = cap.Ends(6, server_port=5353)
         ends[6] = e
         lists.append(cap.udp_packets(6, [("c", b"\x40" + b"\x99" * 30), ("s", b"\x00\x01\x02"), ("c", b"\xff" * 1200), ("s", b"\x7f")]))
-    pk = cap.stamp(scen.round_robin(lists), ends) if lists else []
+    if kind in ("tls_reordered", "tls_retransmitted", "tls_many_segments_two_flows"):
+        hist = [("c", 700), ("s", 3000), ("c", 400), ("s", 900), ("c", 20)]
+        f = scen.tls_flow({"version": tls.TLS12, "suite": 0x003C, "history": hist}, seed, 0, mss=300)
+        ends[0] = f.ends
+        keylog.extend(f.keylog())
+        pk0 = list(f.pkts)
+        data_idx = [i for i, p in enumerate(pk0) if p.payload]
+        if kind == "tls_reordered":
+            # every second non-first segment of a direction is captured one position late (after its successor)
+            seen_dir = set()
+            moved = 0
+            i = 0
+            while i < len(pk0) - 1:
+                p, q = pk0[i], pk0[i + 1]
+                if p.payload and q.payload and p.dir == q.dir and p.dir in seen_dir and moved % 2 == 0:
+                    pk0[i], pk0[i + 1] = q, p
+                    i += 2
+                    moved += 1
+                    continue
+                if p.payload:
+                    if p.dir in seen_dir and q.payload and p.dir == q.dir:
+                        moved += 1
+                    seen_dir.add(p.dir)
+                i += 1
+        elif kind == "tls_retransmitted":
+            for i in data_idx[::-3]:
+                pk0.insert(min(len(pk0), i + 2), pk0[i])
+        lists = [pk0]
+        if kind == "tls_many_segments_two_flows":
+            g = scen.tls_flow({"version": tls.TLS13, "suite": 0x1301, "history": hist}, seed, 1, mss=97, v6=True)
+            ends[1] = g.ends
+            keylog.extend(g.keylog())
+            lists.append(g.pkts)
+    pk = cap.stamp([p.copy() for p in scen.round_robin(lists)], ends) if lists else []
     return pk, keylog
 
 
@@ -231,6 +265,12 @@ def run_case(case):
             except scen.ExportError as e:
                 fails.append({"kind": e.kind, "sig": sig, "detail": e.detail})
                 continue
+            if kind.startswith("tls_re") or kind.startswith("tls_many"):
+                c = [x for x in an["tcp"].values()]
+                if not c or sum(len(x["c2s"]) + len(x["s2c"]) for x in c) < 5000:
+                    fails.append({"kind": "reordered_capture_not_fully_exported", "sig": sig,
+                                  "detail": f"{sum(len(x['c2s']) + len(x['s2c']) for x in c)} bytes exported"})
+                    continue
             if an["tcp"] or an["udp"] or kind in ("empty", "tls_nokeys", "quic_nokeys", "http_on_443", "junk_udp", "quic_unknown_version"):
                 nontriv.append(engine.jhash(sig))
             outcomes.add(scen.digest(res.out))
